@@ -54,7 +54,11 @@ def main():
         res["demo_unchanged_rc"] = rc
         if rc != 0:
             res["demo_unchanged_tail"] = out[-1500:]
-        rc, out = sh("git apply --whitespace=nowarn %s" % os.path.join(seed, "patch.diff"), scratch)
+        pf = os.path.join(seed, "patch.adapted.diff")
+        if not os.path.exists(pf):
+            pf = os.path.join(seed, "patch.diff")
+        res["patch_file"] = os.path.basename(pf)
+        rc, out = sh("git apply --whitespace=nowarn %s" % pf, scratch)
         res["apply_rc"] = rc
         if rc != 0:
             res["apply_out"] = out[-800:]
